@@ -1147,6 +1147,13 @@ def rule_ON(run: Run) -> RuleResult:
                 "name anonymous objects, and a clone of a dataset no longer shares registrations with the original", nec)
     if not any(c_[0].endswith("Value.evaluate") for c_ in copies):
         raise AnalysisError("R-ON: Value.evaluate no longer deep-copies its value (anchor vanished)")
+    # (one summary obligation per module, so that a property can ask for "no expression object of this module is duplicated by copying")
+    for m in run.repo.modules.values():
+        if m.name.startswith("labrea.mypy"):
+            continue
+        bad_ = [c_ for c_ in copies if c_[2] == m.relpath and not c_[0].endswith("Value.evaluate") and c_[4] is True]
+        res.add(f"{m.name}:duplicates no expression object by copy() / deepcopy()", not bad_, m.relpath, bad_[0][1] if bad_ else 1,
+                "no copy of an expression object" if not bad_ else f"{bad_[0][0]}: {bad_[0][3]}", nec, trivial=not bad_)
     res.count("derived targets", n)
     res.count("classes", len(run.node_classes()))
     return res
